@@ -19,6 +19,10 @@ PRIM = {"double": 8, "float": 4, "half": 2, "i1": 1, "i8": 1, "i16": 2, "i32": 4
         "x86_fp80": 16, "fp128": 16}
 
 
+# When set (C18 E2), a call argument that is a constant getelementptr expression (an address inside a global, e.g. a
+# function-local static written by memset / memcpy) keeps its expression so that its provenance resolves to the global.
+KEEP_CONST_GEP = False
+
 class Unresolved(Exception):
     pass
 
@@ -694,6 +698,9 @@ class FuncFacts:
     @staticmethod
     def _arg_value(a):
         a = a.strip()
+        i = a.find("getelementptr") if KEEP_CONST_GEP else -1
+        if i >= 0 and a.endswith(")") and re.match(r"getelementptr (?:inbounds )?\(", a[i:]):
+            return a[i:]   # constant expression (address inside a global): keep it whole, without the parameter attributes
         m = re.search(r"(" + NAME + "|" + GNAME + r"|-?\d+(?:\.\d+e[+-]\d+)?|0x[0-9A-Fa-f]+|null|undef|poison|true|false|zeroinitializer)\s*$", a)
         return m.group(1) if m else a
 
